@@ -281,8 +281,11 @@ pub fn check_message(ctx: &Ctx, idx: u64, msg: Message, r: &mut Rng, out: &mut O
             }
         }
     };
-    if frame.len() <= 40 && idx % 7 == 0 {
+    // (the kind is idx % 63: the sweep selector must not share a factor with that, or only every
+    // seventh kind is ever swept - which an earlier version did)
+    if frame.len() <= 40 && (idx / 63) % 7 == 0 {
         out.count("byte_sweeps", 1);
+        out.seen("kinds_swept", kind_name.clone());
         for pos in 0..frame.len() {
             let orig = frame[pos];
             for b in 0..=255u8 {
@@ -296,7 +299,14 @@ pub fn check_message(ctx: &Ctx, idx: u64, msg: Message, r: &mut Rng, out: &mut O
                 // cannot mean the same message - if it is accepted as the same message, the
                 // byte that differs was read leniently (e.g. an option / enum tag or a boolean
                 // taken as "anything but 0"), i.e. a field that is not well-formed was accepted
-                if pos >= 5 {
+                // (not inside the value slot of a kind that carries one: values are opaque to the
+                // message parser - their well-formedness is C07's subject - and a variant without a
+                // payload carries a placeholder value there whose bytes are not part of the message)
+                let in_value_slot = msg.kind().has_value() && frame.len() >= 9 && {
+                    let l = u32::from_le_bytes(frame[5..9].try_into().unwrap()) as usize;
+                    pos >= 9 && pos < 9usize.saturating_add(l)
+                };
+                if pos >= 5 && !in_value_slot {
                     if let Ok(Ok(m2)) = parse(&f) {
                         if m2 == msg {
                             out.violation(
